@@ -652,8 +652,14 @@ def check_C14(tier):
         for n, x in enumerate(pick):
             bs = backends if thorough and n < 6 else [backends[0]] + ([backends[1 + (n + sid) % (len(backends) - 1)]] if n % 3 == 0 and len(backends) > 1 else [])
             for b in bs:
-                keys = 'tuple' if (b == 'dir' and n % 4 == 3) else 'str'
-                jobs.append((b, keys, sid, init, ops, x['sched'], os.path.join(root, 'c%d' % len(jobs)), x['bad']))
+                # directory archives store keys that are not their own directory name (tuples, ints) with an input file
+                # next to the output file: the schedules the model predicts to matter run with both kinds of key
+                if b == 'dir' and (x['bad'] or thorough):
+                    ksets = ['str', 'tuple']
+                else:
+                    ksets = ['tuple' if (b == 'dir' and n % 4 == 3) else 'str']
+                for keys in ksets:
+                    jobs.append((b, keys, sid, init, ops, x['sched'], os.path.join(root, 'c%d' % len(jobs)), x['bad']))
         # one archive object shared by forked children (multiprocessing 'fork'): a few schedules per writer/writer scenario
         if module == 'DirFS' and sid in (11, 21, 22):
             for n, x in enumerate(pick[:(12 if thorough else 4)]):
@@ -688,8 +694,15 @@ def check_C14(tier):
         nsched += len(orders)
         rng.shuffle(orders)
         cap = (200 if thorough else 12) if b.startswith('sql') else (40 if thorough else 3)
+        ksets = ['str']
+        if b == 'dir' and sid in (16, 17, 18, 19, 21, 27, 28):
+            # an entry is replaced or removed while another process looks: EVERY placement of the other operation between
+            # two real steps of the writer (all orders with at most two switches), for keys with and without an input file
+            cap = max(cap, 40)
+            ksets = ['str', 'tuple']
         for order in orders[:cap]:
-            jobs.append((b, 'str', sid, init, ops, order, os.path.join(root, 'c%d' % len(jobs)), False))
+            for keys in ksets:
+                jobs.append((b, keys, sid, init, ops, order, os.path.join(root, 'c%d' % len(jobs)), False))
     t0 = time.time()
     with ThreadPoolExecutor(max_workers=max(2, common.NCPU // 2)) as ex:
         traces = list(ex.map(run_schedule, jobs))
